@@ -140,6 +140,9 @@ func (s *Store) Push(ctx context.Context, expected ocispec.Descriptor, reader io
 		return err
 	}
 	if err := s.graph.Index(ctx, s.storage, expected); err != nil {
+		// the content cannot be indexed (e.g. a manifest that does not decode):
+		// do not leave it behind, Push has failed
+		_ = s.storage.Delete(ctx, expected)
 		return err
 	}
 	if descriptor.IsManifest(expected) {
